@@ -20,9 +20,17 @@ let mk_buf i f =
   let e = ebuf_open [n_of_int (65 + i); n_of_int 10] in
   if f = "1" then run_dop e (DEdit (None, O, S O)) else e
 let tag e = match e.disk with (c :: _) :: _ -> int_of_n c - 65 | _ -> -1
+(* the table is bufs[NBUFS] (NSLOTS slots, the observed buffers first, the rest empty): ec_quit_tab is the array loop of
+   ec_quit; the list scan ec_quit must agree with it (C02_quit_table_is_scan) *)
 let do_quit fs =
-  let (t, q) = ec_quit false (List.mapi mk_buf fs) in
-  if q then pr "quit\n" else pr "stay %d\n" (match t with b :: _ -> tag b | [] -> -1)
+  let l = List.mapi mk_buf fs in
+  if List.length l > int_of_nat nSLOTS then pr "overflow %d\n" (int_of_nat nSLOTS) else
+  let (t, q) = ec_quit_tab false (full_table l) in
+  let (t2, q2) = ec_quit false l in
+  let cur = match t with Some b :: _ -> tag b | _ -> -1 in
+  let cur2 = match t2 with b :: _ -> tag b | [] -> -1 in
+  if q <> q2 || ((not q) && cur <> cur2) || List.length t <> int_of_nat nSLOTS then pr "model-inconsistent\n"
+  else if q then pr "quit\n" else pr "stay %d\n" cur
 let do_guard fs =
   let (_, r) = guard_current false (List.mapi mk_buf fs) in
   pr "%s\n" (if r then "refused" else "pass")
@@ -31,6 +39,7 @@ let () = iter_lines (fun l ->
   match words l with
   | "Q" :: fs -> do_quit fs
   | "G" :: fs -> do_guard fs
+  | ["N"] -> pr "%d\n" (int_of_nat nSLOTS)
   | [] -> pr "\n"
   | init :: ops ->
       let lb = lbuf_saved (lbuf_edit lbuf_make (Some (bytes_of_hex init)) O O) true in
